@@ -49,6 +49,38 @@ def optimality_in_code(chk, pool):
                 chk.mismatch({"optimality": {"cfg": cfg, "target": i + 1}}, {"what": "reflection returned although mirroring was not allowed"})
 
 
+def gpa_family(chk, pool):
+    """generalized Procrustes on shapes that differ by members of the similarity family (mirrored members included when
+    mirroring is allowed): every input is recovered onto the common target, i.e. all aligned sources coincide"""
+    from menpo.shape import PointCloud
+    from menpo.transform import GeneralizedProcrustesAnalysis
+
+    src = np.array(pool["src"], dtype=float)
+    c, s_ = 0.6, 0.8
+    R = np.array([[c, -s_], [s_, c]])
+    F = np.array([[1.0, 0.0], [0.0, -1.0]])
+    members = {"rotated+scaled": 1.5 * src @ R.T + [2.0, -1.0], "translated": src + [4.0, 0.5], "shrunk": 0.5 * src @ R.T @ R.T,
+               "mirrored": src @ F.T + [1.0, 3.0], "mirrored+rotated": 2.0 * src @ F.T @ R.T - [3.0, 1.0]}
+    for names, mirror in ((("rotated+scaled", "translated", "shrunk"), False), (("rotated+scaled", "translated", "shrunk"), True),
+                          (("rotated+scaled", "mirrored", "translated"), True), (("mirrored", "mirrored+rotated", "shrunk", "translated"), True)):
+        shapes = [PointCloud(src.copy())] + [PointCloud(members[n].copy()) for n in names]
+        keep = [x.points.copy() for x in shapes]
+        g = GeneralizedProcrustesAnalysis(shapes, allow_mirror=mirror)
+        chk.case(("gpa_family", names, mirror))
+        chk.replayed += 1
+        al = [t.apply(k) for t, k in zip(g.transforms, keep)]
+        spread = max(float(np.abs(a - al[0]).max()) for a in al)
+        what = None
+        if spread > 1e-6:
+            what = "generalized Procrustes does not bring shapes that differ by similarity-family members onto one another (spread %.3g)" % spread
+        elif any(not np.array_equal(x.points, k) for x, k in zip(shapes, keep)):
+            what = "generalized Procrustes modified an input shape"
+        elif not mirror and any(np.linalg.det(t.h_matrix[:2, :2]) < 0 for t in g.transforms):
+            what = "generalized Procrustes returned a reflection although mirroring was not allowed"
+        if what:
+            chk.mismatch({"gpa_family": {"members": list(names), "allow_mirror": mirror}}, {"what": what}, what=what)
+
+
 def recover_3d(chk, s):
     out, r = generate(chk, "pool3d", "MC_Transforms3", "MC_Transforms3_pool.cfg", s, workers=4)
     recs = tlc.read_emitted(out)
@@ -80,9 +112,15 @@ def run(chk, tier, seed, replay):
             chk.sample(case["emitted"]["case"])
             for w, detail, kind in warps.run_case(case["emitted"]):
                 chk.mismatch(case, {"what": w, **detail}, kind=kind, what=w)
+        else:       # a relational family (optimality in code, GPA family): re-run it on the current tree
+            with tlc.Scratch("c07") as s:
+                pool = c08.run_histories(chk, s, "fits", "MC_Alignment_fits.cfg")
+                optimality_in_code(chk, pool)
+                gpa_family(chk, pool)
         return
     with tlc.Scratch("c07") as s:
         pool = c08.run_histories(chk, s, "fits", "MC_Alignment_fits.cfg")
         optimality_in_code(chk, pool)
         run_cases(chk, "warps", "Warps", "MC_Warps_c04.cfg", s, warps.run_case)
         recover_3d(chk, s)
+        gpa_family(chk, pool)
